@@ -4,6 +4,7 @@ import xml_rules
 import norm_rules
 import pcw_rules
 import header_rules
+import blob_rules
 
 TECHNIQUE = "XML schema extraction from MIR: symbolic evaluation of the serialisers (decoded format templates, expanded helper calls) into a document skeleton with field provenance; reader lookup tables per struct field; writer/reader inverse-map comparison, field coverage, format-spec check, escaping-gate dataflow, setter and raw-XML identity dataflow"
 EXPLANATION = (
@@ -34,6 +35,7 @@ def run(ctx):
         ctx.call(xml_rules.datetime_flag, prog, "R1")
         ctx.call(xml_rules.record_name_tables, prog, "R1")
         ctx.call(xml_rules.setters, prog, "R3")
+        ctx.call(blob_rules.image_siblings, prog, "R3")
         ctx.call(pcw_rules.finalize_protocol, prog, "R3")
         ctx.call(xml_rules.type_attributes, prog, "R4")
         ctx.call(norm_rules.limit_parse_types, prog, "R4")
